@@ -77,7 +77,8 @@ def corruptions(ev):
             e = clone(); tt = get(e); tt["lk"]["obs"][0] = 99; yield "stale_lookup:" + where, e
             e = clone(); tt = get(e); tt["lk"]["unknown_found"] = True; yield "unknown_found:" + where, e
             e = clone(); tt = get(e); tt["lk"]["shape"] = [77, 1]; yield "lk_shape:" + where, e
-    e = clone(); e["out"] = "error:Corrupt" if ev["out"] == "ok" else "ok"; yield "outcome", e
+    if ev["call"] != "draws":
+        e = clone(); e["out"] = "error:Corrupt" if ev["out"] == "ok" else "ok"; yield "outcome", e
     if ev["out"] == "ok" and ev.get("res") in ev.get("post", {}) and ev.get("res") not in ev.get("pre", {}):
         e = clone(); del e["post"][ev["res"]]; e["out"] = "table_error"; yield "outcome_table_error_no_result", e
     obs = ev.get("obs", {})
